@@ -200,6 +200,10 @@ class Section(Node):
 
     @module.setter
     def module(self, value: typing.Optional["Module"]) -> None:
+        if value is self._module:
+            # Already there: nothing to do (taking it out and putting it
+            # back would disturb anyone iterating over the collection).
+            return
         if self._module is not None:
             self._module.sections.discard(self)
         if value is not None:
